@@ -28,6 +28,97 @@ _MM_REQ = ["N >= 0", "P >= 0", "idx.shape[0] == S", "w.shape[0] == S", "w.shape[
            "forall(0, S, lambda s: 0 <= sl[s] and sl[s] < N)",
            "forall(0, S, lambda s: forall(0, sz[s], lambda c: 0 <= idx[s, c] and idx[s, c] < P))"]
 
+
+# ---- row sums.  c06_dep(i, n, s, c): total weight deposited into columns [0, n) of row i by the interpolation entries
+# scanned strictly before entry c of sub-pixel s ((s, sz[s]) == (s+1, 0)) -- the scan-order reading of "sum over the
+# sub-pixels of pixel i, over their entries".  Lemmas: summing the matrix formula over the columns p < n gives exactly
+# that deposit (Fubini, by induction), and when every entry names a column in [0, P) the deposit is the sum of the
+# sub-fractions times the total weight of each sub-pixel.
+def _c06_dep_py(idx, w, sz, sl, fr, P, i, n, s, c):
+    tot = 0.0
+    for t in range(0, s + 1):
+        if t >= sl.shape[0]:
+            break
+        hi = int(sz[t]) if t < s else c
+        for k in range(hi):
+            if int(sl[t]) == i and 0 <= int(idx[t, k]) < n:
+                tot += fr[i] * w[t, k]
+    return float(tot)
+
+
+_DP = "c06_dep(idx, w, sz, sl, fr, P, {i}, {n}, {s}, {c})"
+_D = lambda i="i", n="n", s="s", c="c": _DP.format(i=i, n=n, s=s, c=c)
+_SHP = "idx.shape[0] == S and w.shape[0] == S and w.shape[1] == C and sz.shape[0] == S"
+_SZOK = "forall(0, S, lambda s: 0 <= sz[s] and sz[s] <= C)"
+_MMS = "sumto({n}, lambda t: (fr[i] * c06_wt(idx, w, sz, t, {p}) if sl[t] == i else 0))"
+_ENT = "(fr[i] * w[s, c] if sl[s] == i and 0 <= idx[s, c] and idx[s, c] < n else 0)"
+_INR = "forall(0, {hi}, lambda k: 0 <= idx[{s}, k] and idx[{s}, k] < P)"
+spec_fn(
+    "c06_dep", params=[("idx", "int[2]"), ("w", "real[2]"), ("sz", "int[1]"), ("sl", "int[1]"), ("fr", "real[1]"), ("P", "$int"),
+                       ("i", "int"), ("n", "int"), ("s", "int"), ("c", "int")], ret="real",
+    let={"S": "sl.shape[0]", "C": "idx.shape[1]", "N": "fr.shape[0]"},
+    axioms=[
+        "forall(0, N, lambda i: forall(0, P + 1, lambda n: " + _D(s="0", c="0") + " == 0, pat=" + _D(s="0", c="0") + "))",
+        "forall(0, N, lambda i: forall(0, P + 1, lambda n: forall(0, S, lambda s: forall(0, C, lambda c:"
+        " implies(" + _SHP + " and c < sz[s], " + _D(c="c + 1") + " == " + _D() + " + " + _ENT + "), pat=" + _D(c="c + 1") + "))))",
+        "forall(0, N, lambda i: forall(0, P + 1, lambda n: forall(0, S, lambda s:"
+        " implies(" + _SHP + ", " + _D(s="s + 1", c="0") + " == " + _D(c="sz[s]") + "), pat=(" + _D(s="s + 1", c="0") + ", " + _D(c="sz[s]") + "))))",
+    ],
+    lemmas=[
+        # inside one sub-pixel: widening the column range by column n adds exactly the entries that name n
+        dict(name="col_row", induct="c", lo=0, hi="C", export=False,
+             stmt="forall(0, N, lambda i: forall(0, P, lambda n: forall(0, S, lambda s: implies(" + _SHP + " and c <= sz[s],"
+                  " " + _D(n="n + 1") + " - " + _D(n="n + 1", c="0") + " == " + _D() + " - " + _D(c="0")
+                  + " + (fr[i] * sumto(c, lambda k: (w[s, k] if idx[s, k] == n else 0)) if sl[s] == i else 0)), pat=" + _D(n="n + 1") + ")))"),
+        dict(name="zero_row", induct="c", lo=0, hi="C", export=False,
+             stmt="forall(0, N, lambda i: forall(0, S, lambda s: implies(" + _SHP + " and c <= sz[s],"
+                  " " + _D(n="0") + " == " + _D(n="0", c="0") + "), pat=" + _D(n="0") + "))"),
+        dict(name="zero", induct="s", lo=0, hi="S", export=False,
+             stmt="forall(0, N, lambda i: implies(" + _SHP + " and " + _SZOK + ", " + _D(n="0", c="0") + " == 0), pat=" + _D(n="0", c="0") + ")"),
+        # across sub-pixels: column n of the matrix formula is the increment of the deposit
+        dict(name="col", induct="s", lo=0, hi="S", export=False,
+             stmt="forall(0, N, lambda i: forall(0, P, lambda n: implies(" + _SHP + " and " + _SZOK + ","
+                  " " + _D(n="n + 1", c="0") + " == " + _D(c="0") + " + " + _MMS.format(n="s", p="n") + "), pat=" + _D(n="n + 1", c="0") + "))"),
+        # Fubini: the matrix formula summed over the columns p < n is the deposit into those columns
+        dict(name="fubini", induct="n", lo=0, hi="P",
+             stmt="forall(0, N, lambda i: implies(" + _SHP + " and " + _SZOK + ","
+                  " sumto(n, lambda p: " + _MMS.format(n="S", p="p") + ") == " + _D(s="S", c="0") + "), pat=" + _D(s="S", c="0") + ")"),
+        # when every entry names a column in [0, P) nothing is lost: the deposit is frac * (total weight)
+        dict(name="full_row", induct="c", lo=0, hi="C", export=False,
+             stmt="forall(0, N, lambda i: forall(0, S, lambda s: implies(" + _SHP + " and c <= sz[s] and " + _INR.format(hi="c", s="s") + ","
+                  " " + _D(n="P") + " == " + _D(n="P", c="0") + " + (fr[i] * sumto(c, lambda k: w[s, k]) if sl[s] == i else 0)), pat=" + _D(n="P") + "))"),
+        dict(name="full", induct="s", lo=0, hi="S",
+             stmt="forall(0, N, lambda i: implies(" + _SHP + " and " + _SZOK + " and forall(0, s, lambda t: " + _INR.format(hi="sz[t]", s="t")
+                  + " and sumto(sz[t], lambda k: w[t, k]) == 1),"
+                  " " + _D(n="P", c="0") + " == sumto(s, lambda t: (fr[i] if sl[t] == i else 0))), pat=" + _D(n="P", c="0") + ")"),
+    ],
+    py=_c06_dep_py,
+    doc="scan-order deposit of interpolation weight into the leading columns of one row of the mapping matrix (C06 row sums)",
+)
+
+# c06_rs(R, ..., i, n) = sum_{p<n} R[i, p]; the other arrays only serve the congruence lemma (R agrees with the formula)
+_RS = lambda i="i", n="n": "c06_rs(R, idx, w, sz, sl, fr, %s, %s)" % (i, n)
+spec_fn(
+    "c06_rs", params=[("R", "real[2]"), ("idx", "int[2]"), ("w", "real[2]"), ("sz", "int[1]"), ("sl", "int[1]"), ("fr", "real[1]"),
+                      ("i", "int"), ("n", "int")], ret="real",
+    let={"S": "sl.shape[0]", "C": "idx.shape[1]", "N": "fr.shape[0]", "RN": "R.shape[0]", "RP": "R.shape[1]"},
+    axioms=["forall(0, RN, lambda i: " + _RS(n="0") + " == 0, pat=" + _RS(n="0") + ")",
+            "forall(0, RN, lambda i: forall(0, RP, lambda n: " + _RS(n="n + 1") + " == " + _RS() + " + R[i, n], pat=" + _RS(n="n + 1") + "))"],
+    lemmas=[
+        dict(name="sum", induct="n", lo=0, hi="RP",
+             stmt="forall(0, RN, lambda i: sumto(n, lambda p: R[i, p]) == " + _RS() + ", pat=sumto(n, lambda p: R[i, p]))"),
+        dict(name="cong", induct="n", lo=0, hi="RP",
+             stmt="forall(0, RN, lambda i: implies(i < N and " + _SHP + " and forall(0, n, lambda p: R[i, p] == " + _MMS.format(n="S", p="p") + "),"
+                  " " + _RS() + " == sumto(n, lambda p: " + _MMS.format(n="S", p="p") + ")), pat=" + _RS() + ")"),
+    ],
+    py=lambda R, idx, w, sz, sl, fr, i, n: float(np.sum(np.asarray(R, dtype=float)[i, :n])),
+    doc="partial row sum of a matrix (C06: every row of the mapping matrix sums to one)",
+)
+
+_H1 = "forall(0, S, lambda s: sumto(sz[s], lambda c: w[s, c]) == 1)"
+_H2 = "forall(0, N, lambda i: sumto(S, lambda s: (fr[i] if sl[s] == i else 0)) == 1)"
+_NONNEG = "forall(0, S, lambda s: forall(0, sz[s], lambda c: w[s, c] >= 0)) and forall(0, N, lambda i: fr[i] >= 0)"
+
 contract(
     MU + "mapping_matrix_from", props=["C06"],
     types={"pix_indexes_for_sub_slim_index": "int[2]", "pix_size_for_sub_slim_index": "int[1]",
@@ -35,12 +126,19 @@ contract(
            "slim_index_for_sub_slim_index": "int[1]", "sub_fraction": "real[1]"},
     returns="real[2]", let=_MM_LET, requires=_MM_REQ,
     ensures=["result.shape[0] == N", "result.shape[1] == P",
-             "forall(0, N, lambda i: forall(0, P, lambda p: result[i, p] == " + _MM.format(n="S") + "))"],
+             "forall(0, N, lambda i: forall(0, P, lambda p: result[i, p] == " + _MM.format(n="S") + "))",
+             # every row sums to the weight deposited in it ...
+             "forall(0, N, lambda i: sumto(P, lambda p: result[i, p]) == c06_dep(idx, w, sz, sl, fr, P, i, P, S, 0))",
+             # ... which is one when each sub-pixel's weights sum to one and the sub-fractions of a pixel's sub-pixels sum to one
+             "implies(" + _H1 + " and " + _H2 + ", forall(0, N, lambda i: sumto(P, lambda p: result[i, p]) == 1))",
+             "implies(" + _NONNEG + ", forall(0, N, lambda i: forall(0, P, lambda p: result[i, p] >= 0)))"],
     loops={
-        0: {"inv": ["forall(0, N, lambda i: forall(0, P, lambda p: mapping_matrix[i, p] == " + _MM.format(n="sub_slim_index") + "))"]},
+        0: {"inv": ["forall(0, N, lambda i: forall(0, P, lambda p: mapping_matrix[i, p] == " + _MM.format(n="sub_slim_index") + "))",
+                    "implies(" + _NONNEG + ", forall(0, N, lambda i: forall(0, P, lambda p: mapping_matrix[i, p] >= 0)))"]},
         1: {"inv": ["forall(0, N, lambda i: forall(0, P, lambda p: mapping_matrix[i, p] == " + _MM.format(n="sub_slim_index")
                     + " + (fr[i] * sumto(pix_count, lambda c: (w[sub_slim_index, c] if idx[sub_slim_index, c] == p else 0))"
-                      " if sl[sub_slim_index] == i else 0)))"]},
+                      " if sl[sub_slim_index] == i else 0)))",
+                    "implies(" + _NONNEG + ", forall(0, N, lambda i: forall(0, P, lambda p: mapping_matrix[i, p] >= 0)))"]},
     },
     sentence={"sumto": "entry (i,p) is the sum over the sub-pixels of image pixel i of the sub-fraction times the interpolation weight of source pixel p"},
 )
